@@ -71,7 +71,8 @@ def run_property(pid, tier, repo, work, quiet=False):
                                Instance(use["rule"], "%s:coverage-lost" % use["rule"], VIOLATES, "", msg)))
 
     # ---- output
-    rdir = os.path.join(VERIF, "evidence", "replay")
+    # replay files of runs against a scratch copy (mutant tools) stay in that run's work directory
+    rdir = os.path.join(VERIF, "evidence", "replay") if repo == facts.REPO else os.path.join(work, "replay")
     os.makedirs(rdir, exist_ok=True)
     for f in os.listdir(rdir):
         if f.startswith(pid + "-"):
